@@ -673,16 +673,42 @@ def np_isnan(E, fv, st, node, prog):
     return SBool(fv.to_float(v).nan)
 
 
-def np_minimum(E, fv, st, node, prog):
-    a, b = _args(fv, st, node, prog, 2)
-    c = fv.to_bool(fv.compare(st, ast.LtE(), a, b, node, prog))
+def _minmax_scalar(fv, st, a, b, node, prog, is_min):
+    c = fv.to_bool(fv.compare(st, ast.LtE() if is_min else ast.GtE(), a, b, node, prog))
     return fv.ite(c, fv.to_float(a), fv.to_float(b))
 
 
-def np_maximum(E, fv, st, node, prog):
-    a, b = _args(fv, st, node, prog, 2)
-    c = fv.to_bool(fv.compare(st, ast.GtE(), a, b, node, prog))
-    return fv.ite(c, fv.to_float(a), fv.to_float(b))
+def _np_minmax(is_min):
+    def f(E, fv, st, node, prog):
+        a, b = _args(fv, st, node, prog, 2)
+        if isinstance(a, SArr) or isinstance(b, SArr):
+            USED.add("np.minimum / np.maximum elementwise on a 1-D array (scalar broadcast)")
+            arr = a if isinstance(a, SArr) else b
+            shp = fv.arr_shape(st, arr)
+            if len(shp) != 1:
+                _err("np.minimum/maximum on non-1-D array")
+            k = fv.fresh_int("k")
+            s = st.fork()
+            s.assumes = st.assumes
+            s.guards = st.guards + [k >= 0, k < shp[0]]
+
+            def elem(x):
+                if isinstance(x, SArr):
+                    if prog and x is not arr:
+                        fv.oblige("shape-match", fv.stmt_anchor(node), fv.arr_shape(st, x)[0] == shp[0], st, node)
+                    return fv.load(s, x, [k], node, prog=False)
+                return x
+
+            r = fv.to_float(_minmax_scalar(fv, s, elem(a), elem(b), node, prog, is_min))
+            comps = {"v": z3.Lambda([k], r.v), "ninf": z3.Lambda([k], r.ninf), "nan": z3.Lambda([k], r.nan)}
+            return fv.new_loc(st, "f8", [shp[0]], comps, name="ew")
+        return _minmax_scalar(fv, st, a, b, node, prog, is_min)
+
+    return f
+
+
+np_minimum = _np_minmax(True)
+np_maximum = _np_minmax(False)
 
 
 def np_sum(E, fv, st, node, prog):
@@ -737,6 +763,41 @@ def np_random_shuffle(E, fv, st, node, prog):
         comps[c] = z3.Lambda([i], z3.Select(t, sig(i)))
     st.heap[v.loc] = o.with_comps(comps)
     return NONE
+
+
+def _sorted_of(fv, st, v):
+    """fresh 1-D integer contents that are an ascending rearrangement of v by a ghost bijection
+    sort<k> / sort<k>_inv:  new[i] == old[sort<k>(i)]"""
+    USED.add("np.sort / ndarray.sort on a 1-D integer array: ascending rearrangement by a bijection of [0,n)")
+    o = st.heap[v.loc]
+    shp = fv.arr_shape(st, v)
+    if len(shp) != 1 or is_float_dtype(o.dtype) or is_bool_dtype(o.dtype):
+        _err("sort of a non-1-D / non-integer array")
+    n = shp[0]
+    old = nested_select(o.comps["v"], v.prefix)
+    k = sum(1 for x in st.funcs if x.startswith("sort") and not x.endswith("_inv"))
+    fv.counter += 1
+    sig = z3.Function("sort%d!%d" % (k, fv.counter), I, I)
+    inv = z3.Function("sort%d_inv!%d" % (k, fv.counter), I, I)
+    st.funcs = dict(st.funcs)
+    st.funcs["sort%d" % k] = sig
+    st.funcs["sort%d_inv" % k] = inv
+    new = fv.fresh("sorted", z3.ArraySort(I, I))
+    i = fv.fresh_int("i")
+    st.assume(z3.ForAll([i], z3.Implies(z3.And(i >= 0, i < n), z3.And(sig(i) >= 0, sig(i) < n, inv(sig(i)) == i, z3.Select(new, i) == z3.Select(old, sig(i)))), patterns=[sig(i)]))
+    st.assume(z3.ForAll([i], z3.Implies(z3.And(i >= 0, i < n), z3.And(inv(i) >= 0, inv(i) < n, sig(inv(i)) == i)), patterns=[inv(i)]))
+    st.assume(z3.ForAll([i], z3.Implies(z3.And(i >= 1, i < n), z3.Select(new, i - 1) <= z3.Select(new, i)), patterns=[z3.Select(new, i)]))
+    return o, n, new
+
+
+def np_sort(E, fv, st, node, prog):
+    (v,) = _args(fv, st, node, prog, 1)
+    if not isinstance(v, SArr):
+        _err("np.sort of non-array")
+    o, n, new = _sorted_of(fv, st, v)
+    a = fv.new_loc(st, o.dtype, [n], {"v": new}, name="sorted")
+    fv.assume_dtype_range(st, o.dtype, new, 1)
+    return a
 
 
 def np_random_rand(E, fv, st, node, prog):
@@ -911,6 +972,7 @@ EXTERNALS = {
     "numpy.maximum": np_maximum,
     "numpy.sum": np_sum,
     "numpy.random.shuffle": np_random_shuffle,
+    "numpy.sort": np_sort,
     "numpy.random.rand": np_random_rand,
     "numpy.random.random": np_random_rand,
     "numpy.random.seed": np_random_seed,
@@ -936,6 +998,12 @@ def method(E, fv, st, recv, name, node, prog):
             return fv.new_loc(st, o.dtype, fv.arr_shape(st, recv), comps, name="copy")
         if name == "sum":
             return _sum_of(E, fv, st, recv, node, prog)
+        if name == "sort":
+            o, n, new = _sorted_of(fv, st, recv)
+            fv.assume_dtype_range(st, o.dtype, new, 1)
+            o2 = st.heap[recv.loc]
+            st.heap[recv.loc] = o2.with_comps({"v": nested_store(o2.comps["v"], recv.prefix, new) if recv.prefix else new})
+            return NONE
         if name == "ravel":
             shp = fv.arr_shape(st, recv)
             if len(shp) != 2:
